@@ -71,6 +71,20 @@ CHECKS["C18"] = dict(
     note=COMMON_NOTE + " IEEE rounding is not modelled: comparison tolerance 64 ulp of max(|lo|,|hi|); range/anchor clauses "
          "checked with a 4-8 ulp allowance.")
 
+CHECKS["C13"] = dict(
+    technique="Coq proof over the reals (Model/ForceBias.v, Proofs/ForceBiasProofs.v, Proofs/ForceBiasIntegral.v with Coquelicot, "
+              "Props/C13.v) + scripted-generator correspondence through the public ForceBias.step(): every (zeta,u) verdict certified "
+              "by the Coq-Interval tactic on the model's P, loop bookkeeping by vm_compute, gamma/displacement compared in Coq",
+    text="Theorems for all gamma, zeta in [-1,1], delta, masses: P is the Bal-Neyts density (both branches), 0<=P<=1, integrates to 1 "
+         "(so the accepted zeta has density P and each trial is accepted with probability 1/2 whatever the force: termination), "
+         "its CDF in closed form, mass on the force side = 1/(1-e^-2g)-1/(2g), P(z)>=P(-z) along the force, |dx|<=delta*(m_min/m)^p "
+         "(<= delta for p>=0), no exponential exceeds exp(gamma_max) and exp(gamma_max) of the CURRENT source is a finite double "
+         "(regenerated constant), rejection loop: on return every coordinate holds an accepted pair, converged ones are never redrawn. "
+         "Partial: monotonicity of the favoured mass in |gamma| is measured (KS + mass tests), not proved.",
+    ref="§4 C13",
+    note=COMMON_NOTE + " The density clause is tied for |gamma| >= 0.005 or exactly 0; numpy's Generator is trusted to sample the "
+         "requested uniform laws; KS/mass tests use a two-stage rule (KS*sqrt(n) > 3 or |z| > 6.5, confirmed with 4x samples).")
+
 NA_REASON = "check not built yet in this round (see DESIGN.md §8 order of construction); no weaker technique substituted"
 
 
